@@ -54,7 +54,7 @@
    number of arguments is the arity error.  The premise that the functions'
    code lies where the table Bf says ([bcode]) is discharged by computation
    through sound checkers (StmtCheck.v) for the built-ins on the machine
-   after builtin.Load and a first statement, and PROVED for user functions from their definitions
+   after builtin.Load, and PROVED for user functions from their definitions
    (StmtDef.v): running f = (ps) -> body at top level (JMP over the body,
    FUNC, the assignment) leaves a machine that meets it under the table with
    one more entry ([C01_definition_extends_the_table]), so sessions of
@@ -857,11 +857,21 @@ Theorem C01_counted_trees_are_covered : forall mc0 t1 r,
 Proof. exact covered_prefix_sound. Qed.
 Print Assumptions C01_counted_trees_are_covered.
 
+Theorem C01_counted_trees_are_covered_sem_vs_vm : forall mc0 t1 r,
+  machine_new = Some mc0 ->
+  let st1 := fst (sem_tree sem_init t1) in
+  let mc1 := fst (run_tree false mc0 t1) in
+  let pre := firstn (covered_prefix2 (t1 :: r)) r in
+  agree [] [] (tab_of (s_globals st1)) (self_tab mc1) st1 mc1 (map item_of pre) /\ map item_tree (map item_of pre) = pre.
+Proof. exact covered_prefix2_sound. Qed.
+Print Assumptions C01_counted_trees_are_covered_sem_vs_vm.
+
 (* the check passes on the machine of the examples, and on a session of the generator's shape *)
 Example C01_start_check_passes :
   start_ok mc_after_first = true /\
-  covered_prefix ([NAssign (NName "ga") (NInt 3); def_lim; def_sq; def_big; def_mad; def_k] ++ demo_ucalls) = 23%nat.
-Proof. split; vm_compute; reflexivity. Qed.
+  covered_prefix ([NAssign (NName "ga") (NInt 3); def_lim; def_sq; def_big; def_mad; def_k] ++ demo_ucalls) = 23%nat /\
+  covered_prefix2 ([NAssign (NName "ga") (NInt 3); def_lim; def_sq; def_big; def_mad; def_k] ++ demo_ucalls) = 23%nat.
+Proof. split; [|split]; vm_compute; reflexivity. Qed.
 
 (* ---- proved: the oracle follows the language rules ---- *)
 Theorem C01_sem_binop_left_error : forall n op c l r e st st1 x,
